@@ -19,9 +19,69 @@ def forward_spec(rng, tier, focus=None, max_time=None, feasible=False):
     return {"profile": p, "model": m, "cfg": cfg, "ranks": ranks}
 
 
+def maybe_history(rng, spec, prob=0.3, reload_prob=0.15):
+    """Attach a two-call history to a forward spec: a first simulate() (cut off at step k, or complete) followed
+    by the simulate() the oracles look at, called with a seeded combination of the initialize flags; optionally
+    the project is written to JSON and read back *into the same object* in between."""
+    if rng.random() < prob:
+        k = rng.choice([None, None, rng.randint(0, 8), rng.randint(1, 15)])
+        flags = rng.choice([(True, True), (True, True), (False, False), (True, False), (False, True)])
+        spec["history"] = {"k": k, "state": flags[0], "log": flags[1], "reload": rng.random() < reload_prob}
+    return spec
+
+
+def history_candidates(spec):
+    h = spec.get("history")
+    if h is not None:
+        c = dict(spec)
+        c.pop("history")
+        yield c
+        if h.get("reload"):
+            c = dict(spec)
+            c["history"] = dict(h, reload=False)
+            yield c
+        if (h["state"], h["log"]) != (True, True):
+            c = dict(spec)
+            c["history"] = dict(h, state=True, log=True)
+            yield c
+
+
 def run_forward(spec, **kw):
+    """Run the scenario's simulate() call under a Recorder.  With spec["history"] the observed call is the second
+    one of a two-call history on the same project object (see maybe_history)."""
     scen.setup_run(spec.get("seed", 0))
-    return scen.run_forward(spec["model"], spec.get("ranks"), spec["cfg"], **kw)
+    hist = spec.get("history")
+    if hist is None:
+        tr = scen.run_forward(spec["model"], spec.get("ranks"), spec["cfg"], **kw)
+        tr.log_offset = 0
+        tr.history = None
+        return tr
+    from .. import build as B
+    from .. import seams
+    tr = scen.Trace()
+    tr.model, tr.cfg = spec["model"], spec["cfg"]
+    tr.built = B.build(spec["model"], spec.get("ranks"))
+    p = tr.project = tr.built.project
+    tr.absence = set(spec["cfg"].get("absence", []))
+    tr.history = hist
+    cfg1 = dict(spec["cfg"])
+    if hist.get("k") is not None:
+        cfg1["max_time"] = hist["k"]
+    rec1, out1 = scen.simulate(p, cfg1, want_snap=False)
+    tr.first_out = out1
+    if out1.ok and hist.get("reload"):
+        ow = D.call(lambda: p.write_simple_json("mem:inplace.json"))
+        if ow.ok:
+            orr = D.call(lambda: p.read_simple_json("mem:inplace.json"))
+            if orr.ok:
+                seams.attach(p)
+                seams.rerank(p, spec.get("ranks") or {})
+    tr.log_offset = len(p.cost_list) if not hist["log"] else 0
+    cfg2 = dict(spec["cfg"])
+    cfg2["init_state"], cfg2["init_log"] = bool(hist["state"]), bool(hist["log"])
+    tr.rec, tr.out = scen.simulate(p, cfg2, **kw)
+    tr.ix = tr.rec.ix
+    return tr
 
 
 def walk(rec):
@@ -63,6 +123,10 @@ def base_result(tr):
     res.steps = tr.rec.n_recorded
     res.rec = tr.rec  # the campaign driver derives the distinct-state measure from it on sampled runs
     res.count("runs")
+    if getattr(tr, "history", None):
+        h = tr.history
+        res.count("history_runs")
+        res.count("history.state%d_log%d%s" % (int(h["state"]), int(h["log"]), ".reload" if h.get("reload") else ""))
     res.count("steps", tr.rec.n_recorded)
     if not tr.out.ok:
         res.count("sut_exception")
